@@ -3,6 +3,7 @@ import Replicon.Proofs.JointAuth
 import Replicon.Proofs.Sync
 import Replicon.Proofs.ClientVals
 import Replicon.Proofs.ProtocolHash
+import Replicon.Proofs.Jump
 /-
 C07 — Unauthorized clients get no replication and only independent events.
 
@@ -129,5 +130,37 @@ theorem C07_history_complete_state_values (s0 : Server) (hw : s0.world = []) (hc
         (Joint.replay ((Joint.runLog { srv := s0 } (fun _ => []) ops).2 z.1)).entityComps.contains k = false →
         Cli.valOn (Cli.applyUpdate (Joint.replay ((Joint.runLog { srv := s0 } (fun _ => []) ops).2 z.1)) u) e k = some comp.val :=
   Joint.history_new_entity_values s0 hw hc0 hb hrates ops hl ticked ms hr z hz e hnew hbump ent hwld
+
+/-- `C07_history` for histories in which the tick also advances by more than one at once
+(`Joint.OpJ`, `Proofs/Jump.lean`): in the state any such history leads to, the next frame hands
+the transport replication messages and dependent events only for authorized clients. -/
+theorem C07_history_with_tick_jumps (ops : List Joint.OpJ) (ticked : Bool) (ms : Nat) (parts : Nat → List (List Nat)) :
+    (∀ c o, (c, o) ∈ (Joint.frame (Joint.runJ {} ops).1 ticked ms parts).2.1 →
+      ∃ cl, (c, cl) ∈ (Joint.runJ {} ops).1.srv.clients ∧ cl.authorized = true) ∧
+    (∀ o ∈ (Joint.frame (Joint.runJ {} ops).1 ticked ms parts).2.2, o.stamp.isSome →
+      ∃ cl, (o.client, cl) ∈ (Joint.runJ {} ops).1.srv.clients ∧ cl.authorized = true) :=
+  ⟨fun c o h => Joint.frame_replication_authorized _ ticked ms parts c o h,
+   fun o ho hs => Joint.frame_events_authorized _ ticked ms parts o ho hs⟩
+
+/-- `C07_history_complete_state` for histories with tick jumps: a client the server tracks nothing
+for yet is sent, in the next frame with a replication run, a CHANGES record for every marked
+entity visible to it. -/
+theorem C07_history_complete_state_with_tick_jumps (s0 : Server) (hw : s0.world = []) (hc0 : s0.clients = [])
+    (hb : s0.removalBuf = []) (ht : s0.lastRun < s0.now) (ops : List Joint.OpJ)
+    (hl : Joint.LegalJ { srv := s0 } ops) (ticked : Bool) (ms : Nat) (parts : Nat → List (List Nat))
+    (hr : (Joint.runLogJ { srv := s0 } (fun _ => []) ops).1.srv.running = true)
+    (hc : (preRun (Joint.runLogJ { srv := s0 } (fun _ => []) ops).1.srv ticked ms).tickChanged = true)
+    (c : Nat) (cl : Cli) (hm : (c, cl) ∈ (preRun (Joint.runLogJ { srv := s0 } (fun _ => []) ops).1.srv ticked ms).clients)
+    (ha : cl.authorized = true) (hfresh : cl.mutTick = []) (e : Nat)
+    (hmk : marked (preRun (Joint.runLogJ { srv := s0 } (fun _ => []) ops).1.srv ticked ms).world e)
+    (hv : Vis.isVisible (preRun (Joint.runLogJ { srv := s0 } (fun _ => []) ops).1.srv ticked ms).white
+      (cell (ranClient (preRun (Joint.runLogJ { srv := s0 } (fun _ => []) ops).1.srv ticked ms) parts (c, cl)).2 e) = true) :
+    ∃ o u, (c, o) ∈ (Joint.frame (Joint.runLogJ { srv := s0 } (fun _ => []) ops).1 ticked ms parts).2.1 ∧
+      o.update = some u ∧ e ∈ u.changes.map (·.ent) := by
+  have inv := Joint.ksess_runJ ops _ _ (Joint.ksess_empty s0 hw hc0 hb ht) hl
+  have invp := preRun_sync _ ticked ms inv.sess.sync
+  have hk : e ∉ keys cl := by unfold keys; rw [hfresh]; simp
+  obtain ⟨u, hu, he⟩ := frame_gained_whole _ parts invp (c, cl) hm ha e hk ⟨hmk, hv⟩
+  exact ⟨_, u, Joint.frame_out_of_client _ ticked ms parts hr hc c cl hm ha, hu, he⟩
 
 end Replicon.C07
